@@ -90,7 +90,7 @@ pub fn families(prop: &str, tier: Tier) -> Vec<Cfg> {
             a.io.write_pending = true;
             a.cancel = true;
             a.broker.ack_fail = true;
-            a.max_ops = if q { 9 } else { 12 };
+            a.max_ops = if q { 9 } else { 11 };
             a.max_conns = if q { 2 } else { 3 };
             a.max_reqs = if q { 3 } else { 4 };
             a.dev = if q { 1 } else { 2 };
@@ -116,7 +116,7 @@ pub fn families(prop: &str, tier: Tier) -> Vec<Cfg> {
             a.broker.dup_retransmit = true;
             a.broker.stale_acks = true;
             a.broker.may_lose_session = true;
-            a.max_ops = if q { 6 } else { 8 };
+            a.max_ops = if q { 7 } else { 9 };
             a.max_conns = if q { 2 } else { 3 };
             a.max_reqs = 1;
             a.dev = if q { 1 } else { 2 };
@@ -197,9 +197,9 @@ pub fn families(prop: &str, tier: Tier) -> Vec<Cfg> {
             b.broker.receive_max = vec![Some(9), Some(65535), None];
             b.broker.reorder_window = 1;
             b.broker.fifo = true;
-            b.max_ops = if q { 14 } else { 22 };
+            b.max_ops = if q { 14 } else { 17 };
             b.max_conns = 1;
-            b.max_reqs = if q { 10 } else { 12 };
+            b.max_reqs = if q { 10 } else { 11 };
             b.dev = 0;
             v.push(b);
             v
@@ -246,7 +246,7 @@ pub fn families(prop: &str, tier: Tier) -> Vec<Cfg> {
             a.broker.disconnect = true;
             a.broker.garbage = true;
             a.broker.script = vec![inpub(1, 3)];
-            a.max_ops = if q { 5 } else { 6 };
+            a.max_ops = if q { 5 } else { 7 };
             a.max_conns = 1;
             a.max_reqs = 4;
             a.dev = 1;
@@ -275,7 +275,7 @@ pub fn families(prop: &str, tier: Tier) -> Vec<Cfg> {
             a.broker.garbage = true;
             a.broker.disconnect = true;
             a.broker.script = vec![inpub(2, 5)];
-            a.max_ops = if q { 4 } else { 5 };
+            a.max_ops = if q { 5 } else { 6 };
             a.max_conns = if q { 2 } else { 3 };
             a.max_reqs = 2;
             a.dev = if q { 2 } else { 3 };
@@ -448,7 +448,7 @@ pub fn families(prop: &str, tier: Tier) -> Vec<Cfg> {
             a.cancel = true;
             a.broker.script = vec![inpub(1, 21), inpub(2, 22)];
             a.broker.may_lose_session = true;
-            a.max_ops = if q { 5 } else { 6 };
+            a.max_ops = if q { 6 } else { 7 };
             a.max_conns = if q { 2 } else { 3 };
             a.max_reqs = 3;
             a.dev = if q { 1 } else { 2 };
